@@ -272,6 +272,29 @@ def _expand_closures(fn: ast.AST, skip_known: tuple[str, set[str]] | None = None
         a = st.args
         if skip_known is not None and f'{skip_known[0]}.<locals>.{st.name}' in skip_known[1]:
             continue        # a nested function the inventory knows
+        if a.defaults and not (a.posonlyargs or a.kwonlyargs or a.vararg or a.kwarg):
+            # a default is evaluated once, where the closure is defined: bind it to a local there and pass it explicitly
+            calls_d = [n for n in ast.walk(fn) if isinstance(n, ast.Call) and isinstance(n.func, ast.Name) and n.func.id == st.name]
+            uses_d = [n for n in ast.walk(fn) if isinstance(n, ast.Name) and n.id == st.name]
+            npos = len(a.args)
+            ndef = len(a.defaults)
+            if calls_d and len(calls_d) == len(uses_d) and all(not c.keywords and npos - ndef <= len(c.args) <= npos and not any(isinstance(x, ast.Starred) for x in c.args) for c in calls_d):
+                k_ = next(i for i, y in enumerate(fn.body) if y is st)  # type: ignore[attr-defined]
+                names_ = []
+                for j_, d_ in enumerate(a.defaults):
+                    counter += 1
+                    nm_ = f'{a.args[npos - ndef + j_].arg}__default{counter}'
+                    names_.append(nm_)
+                    asg_ = ast.copy_location(ast.Assign(targets=[ast.Name(id=nm_, ctx=ast.Store())], value=d_, lineno=st.lineno), st)
+                    ast.fix_missing_locations(asg_)
+                    fn.body.insert(k_, asg_)  # type: ignore[attr-defined]
+                    k_ += 1
+                for c in calls_d:
+                    missing = npos - len(c.args)
+                    for nm_ in names_[ndef - missing:] if missing else []:
+                        c.args.append(ast.copy_location(ast.Name(id=nm_, ctx=ast.Load()), c))
+                a.defaults = []
+                done = True
         if a.args and not (a.posonlyargs or a.kwonlyargs or a.vararg or a.kwarg or a.defaults):
             # an expression closure with plain parameters, applied to plain arguments: its expression with the arguments in place
             body_ = [x for x in st.body if not (isinstance(x, ast.Expr) and isinstance(x.value, ast.Constant))]
@@ -321,17 +344,24 @@ def _expand_closures(fn: ast.AST, skip_known: tuple[str, set[str]] | None = None
                     if isinstance(blk, list) and blk and isinstance(blk[0], ast.stmt):
                         for x in blk:
                             if isinstance(x, ast.Expr) and isinstance(x.value, ast.Call) and isinstance(x.value.func, ast.Name) and x.value.func.id == st.name \
-                                    and not x.value.args and not x.value.keywords:
+                                    and len(x.value.args) == len(a.args) and not x.value.keywords and all(isinstance(y_, (ast.Name, ast.Constant)) for y_ in x.value.args):
                                 psites.append((blk, x))
                             elif x is not st:
                                 stack.append(x)
                 for h_ in getattr(o, 'handlers', []) or []:
                     stack.append(h_)
             inner_locals = {n.id for x in body for n in ast.walk(x) if isinstance(n, ast.Name) and isinstance(n.ctx, ast.Store)}
-            if uses and len(psites) == len(uses) and not inner_locals:
+            pnames = [x_.arg for x_ in a.args]
+            rebinds_param = any(isinstance(n, ast.Name) and n.id in pnames and isinstance(n.ctx, ast.Store) for y in body for n in ast.walk(y))
+            if uses and len(psites) == len(uses) and not inner_locals and not rebinds_param and not (a.posonlyargs or a.kwonlyargs or a.vararg or a.kwarg or a.defaults):
                 for blk, x in psites:
                     k = next(i for i, y in enumerate(blk) if y is x)
-                    cp = [copy.deepcopy(y) for y in body]
+                    pm_ = dict(zip(pnames, x.value.args))
+
+                    class _Sp(ast.NodeTransformer):
+                        def visit_Name(self, n: ast.Name) -> ast.AST:  # noqa: N802
+                            return copy.deepcopy(pm_[n.id]) if n.id in pm_ and isinstance(n.ctx, ast.Load) else n
+                    cp = [_Sp().visit(copy.deepcopy(y)) for y in body]
                     for y in cp:
                         for n in ast.walk(y):
                             if hasattr(n, 'lineno'):
